@@ -188,6 +188,15 @@ func c07options(g *Gen) {
 				ops = append(ops, op{kind: "sym", pkg: pkg})
 			}
 		}
+		if i%7 == 3 {
+			// more packages with one candidate name than one digit can number: ab, ab2 ... ab9, ab10, ab11
+			var many []op
+			for _, pth := range []string{"ab", "a.b", "a-b", "a_b", "a~b", "a+b", "a--b", "a__b", "a-_b", "a_-b", "a.-b"} {
+				many = append(many, op{kind: "sym", pkg: pth})
+			}
+			ops = append(many, ops...)
+			cls["more-than-nine-packages-with-one-name"] = true
+		}
 		if i%5 == 1 {
 			// a directory called init: no package can be imported under that name ("init must be a func")
 			ops = append([]op{{kind: "sym", pkg: g.Pick([]string{"a/init", "init", "x/in_it"})}}, ops...)
